@@ -154,6 +154,8 @@ def run(ctx):
     c.ob("R3", ok, dl, "delayed-send-task-owned", "the delayed-send task is registered with the task manager" if ok else
          "the async delayed-send task is not registered with the task manager: stop() cannot cancel it", dl.node)
     shared.registry_hygiene(ctx, "R3")
+    # ---- R6 every background task is owned (reachable by exit / stop) -----------------------------
+    shared.background_tasks_owned(ctx, "R6")
     # ---- R5 a child leaves the actor map only together with its stop ---------------------------
     shared.actor_removal_with_stop(ctx, "R5")
     # ---- R4 send() after done/error/stopped queues nothing: see C10.R2 --------------------
